@@ -247,6 +247,24 @@ PROPS["C10"] = dict(
     floor=dict(quick=1500, thorough=20000),
 )
 
+PROPS["C11"] = dict(
+    level="exploration",
+    technique="rapidcheck differential testing of every EC implementation x supported curve against OpenSSL EC_POINT arithmetic / X25519 / ECDSA verification and an RFC 6979 reference written in the harness, with generated scalar classes and encodings, related-term muladd scenarios, invalid point encodings and signature defects",
+    rule=("case kinds: mul/mulgen (scalar classes 1, 2, n-1, n-2, small, high-bit, n>>1, random; encodings full length, minimal, zero-extended, "
+          "shorter; base G or a*G), muladd (B = NULL or explicit; unrelated, equal, opposite (infinity), A == B), invalid points (prefix, length, "
+          "compressed, off-curve, x >= p, (0,0), all ones, random bit flip: judged by OpenSSL's verdict on the same bytes), X25519 (base point, "
+          "u >= p, low order, top bit set, short scalars; all implementations agree and match OpenSSL), ECDSA (signer i15/i31/default x EC impl, "
+          "verifier i15/i31/default x EC impl, six hashes, key classes; equals RFC 6979 value; verifies with OpenSSL and here; raw/ASN.1 "
+          "conversions equal minimal DER; ten negative mutations compared with OpenSSL's verdict), ASN.1 converter on arbitrary integers and "
+          "malformed DER, key generation. distinct = (kind, impl, curve, classes)"),
+    assumptions=["OpenSSL 3.0 EC / X25519 / ECDSA are correct", "zero or >= n multipliers are never generated for mul/mulgen/muladd (result documented as indeterminate)",
+                 "for 32-byte Curve25519 inputs no rejection is asserted (every string is a valid u)"],
+    targets=[dict(name="c11_ec", src="c11_ec.cpp", flavour="san", libs=["-lcrypto"])],
+    quick=[("c11_ec", "rc", dict(cases=9600, shards=16))],
+    thorough=[("c11_ec", "rc", dict(cases=400000, shards=16))],
+    floor=dict(quick=2500, thorough=40000),
+)
+
 # ---------------------------------------------------------------- manifest text
 HOOK_COMMITS = ["b37444c", "e1637c5"]
 NOT_APPLICABLE = {}
@@ -363,4 +381,13 @@ MANIFEST_TEXT["C10"] = dict(
           "PSS/OAEP structures may be accepted. Generated keys are checked for primality and field consistency with GMP."),
     design_ref="DESIGN.md section 4, C10",
     note="trusts GMP and OpenSSL; byte-exhaustive corruption is sampled (one generated position per case), not enumerated",
+)
+
+MANIFEST_TEXT["C11"] = dict(
+    text=("Each generated case exercises one EC implementation (all 15 incl. the i15/m15 code the ESP8266 uses) on one of its curves and compares "
+          "with OpenSSL: point multiplication with scalar classes and encodings, x*A+y*B with equal / opposite / coinciding terms, rejection of "
+          "every kind of invalid point encoding exactly when OpenSSL rejects it, X25519 against RFC 7748 semantics, ECDSA signatures equal to the "
+          "RFC 6979 value and cross-verified, and verification verdicts equal to OpenSSL's on mutated signatures, hashes and keys."),
+    design_ref="DESIGN.md section 4, C11",
+    note="trusts OpenSSL; negative cases are one generated mutation per case",
 )
